@@ -225,8 +225,11 @@ func (a *NXActionConjunction) UnmarshalBinary(data []byte) error {
 	n := 0
 	a.NXActionHeader = new(NXActionHeader)
 	err := a.NXActionHeader.UnmarshalBinary(data[n:])
+	if err != nil {
+		return err
+	}
 	n += int(a.NXActionHeader.Len())
-	if len(data) < int(a.Len()) {
+	if a.Length < 16 || len(data) < int(a.Length) {
 		return errors.New("the []byte is too short to unmarshal a full NXActionConjunction message")
 	}
 	a.Clause = uint8(data[n])
@@ -290,8 +293,11 @@ func (a *NXActionConnTrack) UnmarshalBinary(data []byte) error {
 	n := 0
 	a.NXActionHeader = new(NXActionHeader)
 	err := a.NXActionHeader.UnmarshalBinary(data[n:])
+	if err != nil {
+		return err
+	}
 	n += int(a.NXActionHeader.Len())
-	if len(data) < int(a.Len()) {
+	if a.Length < 24 || len(data) < int(a.Length) {
 		return errors.New("the []byte is too short to unmarshal a full NXActionConnTrack message")
 	}
 	a.Flags = binary.BigEndian.Uint16(data[n:])
@@ -307,8 +313,8 @@ func (a *NXActionConnTrack) UnmarshalBinary(data []byte) error {
 	a.Alg = binary.BigEndian.Uint16(data[n:])
 	n += 2
 
-	for n < int(a.Len()) {
-		act, err := DecodeAction(data[n:])
+	for n < int(a.Length) {
+		act, err := DecodeAction(data[n:a.Length])
 		if err != nil {
 			return errors.New("failed to decode actions")
 		}
@@ -407,8 +413,11 @@ func (a *NXActionRegLoad) UnmarshalBinary(data []byte) error {
 	n := 0
 	a.NXActionHeader = new(NXActionHeader)
 	err := a.NXActionHeader.UnmarshalBinary(data[n:])
+	if err != nil {
+		return err
+	}
 	n += int(a.NXActionHeader.Len())
-	if len(data) < int(a.Len()) {
+	if a.Length < 24 || len(data) < int(a.Length) {
 		return errors.New("the []byte is too short to unmarshal a full NXActionRegLoad message")
 	}
 	a.OfsNbits = binary.BigEndian.Uint16(data[n:])
@@ -475,8 +484,11 @@ func (a *NXActionRegMove) UnmarshalBinary(data []byte) error {
 	n := 0
 	a.NXActionHeader = new(NXActionHeader)
 	err := a.NXActionHeader.UnmarshalBinary(data[n:])
+	if err != nil {
+		return err
+	}
 	n += int(a.NXActionHeader.Len())
-	if len(data) < int(a.Length) {
+	if a.Length < 24 || len(data) < int(a.Length) {
 		return errors.New("the []byte is too short to unmarshal a full NXActionRegMove message")
 	}
 	a.Nbits = binary.BigEndian.Uint16(data[n:])
@@ -536,8 +548,11 @@ func (a *NXActionResubmit) UnmarshalBinary(data []byte) error {
 	n := 0
 	a.NXActionHeader = new(NXActionHeader)
 	err := a.NXActionHeader.UnmarshalBinary(data[n:])
+	if err != nil {
+		return err
+	}
 	n += int(a.NXActionHeader.Len())
-	if len(data) < int(a.Len()) {
+	if a.Length < 16 || len(data) < int(a.Length) {
 		return errors.New("the []byte is too short to unmarshal a full NXActionConjunction message")
 	}
 	a.InPort = binary.BigEndian.Uint16(data[n:])
@@ -611,8 +626,11 @@ func (a *NXActionResubmitTable) UnmarshalBinary(data []byte) error {
 	n := 0
 	a.NXActionHeader = new(NXActionHeader)
 	err := a.NXActionHeader.UnmarshalBinary(data[n:])
+	if err != nil {
+		return err
+	}
 	n += int(a.NXActionHeader.Len())
-	if len(data) < int(a.Len()) {
+	if a.Length < 16 || len(data) < int(a.Length) {
 		return errors.New("the []byte is too short to unmarshal a full NXActionResubmitTable message")
 	}
 	a.InPort = binary.BigEndian.Uint16(data[n:])
@@ -782,8 +800,11 @@ func (a *NXActionCTNAT) UnmarshalBinary(data []byte) error {
 	n := 0
 	a.NXActionHeader = new(NXActionHeader)
 	err := a.NXActionHeader.UnmarshalBinary(data[n:])
+	if err != nil {
+		return err
+	}
 	n += int(a.NXActionHeader.Len())
-	if len(data) < int(a.Len()) {
+	if a.Length < 16 || a.Length%8 != 0 || len(data) < int(a.Length) {
 		return errors.New("the []byte is too short to unmarshal a full NXActionCTNAT message")
 	}
 	// Skip padding bytes
@@ -792,6 +813,28 @@ func (a *NXActionCTNAT) UnmarshalBinary(data []byte) error {
 	n += 2
 	a.rangePresent = binary.BigEndian.Uint16(data[n:])
 	n += 2
+	need := n
+	if a.rangePresent&NX_NAT_RANGE_IPV4_MIN != 0 {
+		need += 4
+	}
+	if a.rangePresent&NX_NAT_RANGE_IPV4_MAX != 0 {
+		need += 4
+	}
+	if a.rangePresent&NX_NAT_RANGE_IPV6_MIN != 0 {
+		need += 16
+	}
+	if a.rangePresent&NX_NAT_RANGE_IPV6_MAX != 0 {
+		need += 16
+	}
+	if a.rangePresent&NX_NAT_RANGE_PROTO_MIN != 0 {
+		need += 2
+	}
+	if a.rangePresent&NX_NAT_RANGE_PROTO_MAX != 0 {
+		need += 2
+	}
+	if int(a.Length) < need {
+		return errors.New("the NXActionCTNAT message is shorter than the ranges it announces")
+	}
 	if a.rangePresent&NX_NAT_RANGE_IPV4_MIN != 0 {
 		a.rangeIPv4Min = net.IPv4(data[n], data[n+1], data[n+2], data[n+3])
 		n += 4
@@ -862,8 +905,11 @@ func (a *NXActionOutputReg) UnmarshalBinary(data []byte) error {
 	n := 0
 	a.NXActionHeader = new(NXActionHeader)
 	err := a.NXActionHeader.UnmarshalBinary(data[n:])
+	if err != nil {
+		return err
+	}
 	n += int(a.NXActionHeader.Len())
-	if len(data) < int(a.Len()) {
+	if a.Length < 24 || len(data) < int(a.Length) {
 		return errors.New("the []byte is too short to unmarshal a full NXActionOutputReg message")
 	}
 	a.OfsNbits = binary.BigEndian.Uint16(data[n:])
@@ -925,8 +971,11 @@ func (a *NXActionCTClear) UnmarshalBinary(data []byte) error {
 	n := 0
 	a.NXActionHeader = new(NXActionHeader)
 	err := a.NXActionHeader.UnmarshalBinary(data[n:])
+	if err != nil {
+		return err
+	}
 	n += int(a.NXActionHeader.Len())
-	if len(data) < int(a.Len()) {
+	if a.Length < 16 || len(data) < int(a.Length) {
 		return errors.New("the []byte is too short to unmarshal a full NXActionCTClear message")
 	}
 	a.zeros = [4]uint8{}
@@ -970,8 +1019,11 @@ func (a *NXActionDecTTL) UnmarshalBinary(data []byte) error {
 	n := 0
 	a.NXActionHeader = new(NXActionHeader)
 	err := a.NXActionHeader.UnmarshalBinary(data[n:])
+	if err != nil {
+		return err
+	}
 	n += int(a.NXActionHeader.Len())
-	if len(data) < int(a.Len()) {
+	if a.Length < 16 || len(data) < int(a.Length) {
 		return errors.New("the []byte is too short to unmarshal a full NXActionDecTTL message")
 	}
 	a.controllers = binary.BigEndian.Uint16(data[n:])
@@ -1023,14 +1075,20 @@ func (a *NXActionDecTTLCntIDs) UnmarshalBinary(data []byte) error {
 	n := 0
 	a.NXActionHeader = new(NXActionHeader)
 	err := a.NXActionHeader.UnmarshalBinary(data[n:])
+	if err != nil {
+		return err
+	}
 	n += int(a.NXActionHeader.Len())
-	if len(data) < int(a.Len()) {
+	if a.Length < 16 || len(data) < int(a.Length) {
 		return errors.New("the []byte is too short to unmarshal a full NXActionDecTTLCntIDs message")
 	}
 	a.controllers = binary.BigEndian.Uint16(data[n:])
 	n += 2
 	a.zeros = [4]uint8{}
 	n += 4
+	if int(a.Length) < n+2*int(a.controllers) {
+		return errors.New("the NXActionDecTTLCntIDs message is shorter than the ids it announces")
+	}
 	for i := 0; i < int(a.controllers); i++ {
 		id := binary.BigEndian.Uint16(data[n:])
 		a.cntIDs = append(a.cntIDs, id)
@@ -1217,6 +1275,9 @@ func (s *NXLearnSpec) UnmarshalBinary(data []byte) error {
 	n := s.Header.Len()
 	if s.Header.src {
 		srcDataLength := 2 * ((s.Header.nBits + 15) / 16)
+		if len(data) < int(n)+int(srcDataLength) {
+			return errors.New("the []byte is too short to unmarshal the NXLearnSpec source value")
+		}
 		s.SrcValue = make([]byte, srcDataLength)
 		copy(s.SrcValue, data[n:n+srcDataLength])
 		n += srcDataLength
@@ -1305,7 +1366,7 @@ func (a *NXActionLearn) UnmarshalBinary(data []byte) error {
 	if err != nil {
 		return err
 	}
-	if len(data) < int(a.Length) {
+	if a.Length < 32 || a.Length%8 != 0 || len(data) < int(a.Length) {
 		return errors.New("the []byte is too short to unmarshal a full NXActionLearn message")
 	}
 	n += int(a.NXActionHeader.Len())
@@ -1330,7 +1391,7 @@ func (a *NXActionLearn) UnmarshalBinary(data []byte) error {
 			break
 		}
 		spec := new(NXLearnSpec)
-		err = spec.UnmarshalBinary(data[n:])
+		err = spec.UnmarshalBinary(data[n:a.Length])
 		if err != nil {
 			return err
 		}
@@ -1376,7 +1437,7 @@ func (a *NXActionNote) UnmarshalBinary(data []byte) error {
 	if err != nil {
 		return err
 	}
-	if len(data) < int(a.Length) {
+	if a.Length < 16 || a.Length%8 != 0 || len(data) < int(a.Length) {
 		return errors.New("the []byte is too short to unmarshal a full NXActionNote message")
 	}
 	n := a.NXActionHeader.Len()
@@ -1430,12 +1491,15 @@ func (a *NXActionRegLoad2) UnmarshalBinary(data []byte) error {
 	n := 0
 	a.NXActionHeader = new(NXActionHeader)
 	err := a.NXActionHeader.UnmarshalBinary(data[n:])
+	if err != nil {
+		return err
+	}
 	n += int(a.NXActionHeader.Len())
-	if len(data) < int(a.Length) {
+	if a.Length < 16 || a.Length%8 != 0 || len(data) < int(a.Length) {
 		return errors.New("the []byte is too short to unmarshal a full NXActionRegLoad2 message")
 	}
 	a.DstField = new(MatchField)
-	err = a.DstField.UnmarshalBinary(data[n:])
+	err = a.DstField.UnmarshalBinary(data[n:a.Length])
 	if err != nil {
 		return err
 	}
@@ -1483,7 +1547,7 @@ func (a *NXActionController) UnmarshalBinary(data []byte) error {
 	if err != nil {
 		return err
 	}
-	if len(data) < int(a.Length) {
+	if a.Length < 16 || len(data) < int(a.Length) {
 		return errors.New("the []byte is too short to unmarshal a full NXActionController message")
 	}
 	n += int(a.NXActionHeader.Len())
